@@ -95,6 +95,7 @@ type loopInfo struct {
 	blocks  map[*ssa.BasicBlock]bool
 	headSt  *State // state at header after havoc (for variants)
 	variant []Term
+	progress []Term
 	spec    *LoopSpec
 }
 
@@ -135,6 +136,8 @@ type Enc struct {
 	anc       map[int]map[int]bool // anc[b]: blocks that can reach b (back edges removed), including b
 	trace     *traceState
 	subTags   int
+	ownStores map[string][]Term
+	callOrd   map[string]int
 	finalOnce sync.Once
 	lateText  string
 	declText  string
@@ -226,6 +229,14 @@ func (e *Enc) oblige(class, anchor string, props []string, reach, goal Term, des
 	e.assume(reach, goal)
 }
 
+// obligeNoAssume: like oblige, but the goal is not assumed afterwards (the caller adds its own continuation facts).
+func (e *Enc) obligeNoAssume(class, anchor string, props []string, reach, goal Term, desc string, p token.Pos) {
+	n := len(e.body)
+	e.oblige(class, anchor, props, reach, goal, desc, p)
+	e.body = e.body[:n]
+	e.bodyBlk = e.bodyBlk[:n]
+}
+
 func sanitizeAnchor(s string) string {
 	var b strings.Builder
 	for _, r := range s {
@@ -273,6 +284,9 @@ func isOpaqueStruct(t types.Type) bool {
 	}
 	if _, ok := n.Underlying().(*types.Struct); !ok {
 		return false
+	}
+	if n.Obj().Pkg() != nil && n.Obj().Pkg().Path() == "reflect" && (n.Obj().Name() == "SelectCase" || n.Obj().Name() == "StructField") {
+		return false // plain data structs whose fields the code under contract reads and writes
 	}
 	return !isAnkoPkg(n.Obj().Pkg())
 }
